@@ -277,7 +277,10 @@ impl<'tcx> Extract<'tcx> {
                 "tuple",
                 J::Arr(ts.iter().map(|t| self.ty_json(t)).collect()),
             )]),
-            ty::Array(inner, _) => J::obj(vec![("array", self.ty_json(*inner))]),
+            ty::Array(inner, len) => J::obj(vec![
+                ("array", self.ty_json(*inner)),
+                ("len_str", s(format!("{}", len))),
+            ]),
             ty::Slice(inner) => J::obj(vec![("slice", self.ty_json(*inner))]),
             other => J::obj(vec![("other", s(format!("{:?}", other)))]),
         }
